@@ -414,6 +414,30 @@ Definition merge_remote (mode : mmode) (h : heap) (i c2 : nat) : heap :=
       fold_left (fun h o => relink_one h i o) local h8
   end.
 
+(* ------------------------------------------------------------------ when is a heap fit for a merge: the hypotheses of the
+   merge theorem, decidably (proved sound in RemoteProofs.v; evaluated on the states the harness reflects) *)
+Definition kidchans (h : heap) (c2 : nat) : list nat :=
+  flat_map (fun k => n_chans (nd h k)) (n_children (nd h c2)).
+Definition ckey (h : heap) (c : nat) : panel * string := (c_panel (ch h c), c_label (ch h c)).
+Definition key_eqb (a b : panel * string) : bool := panel_eqb (fst a) (fst b) && String.eqb (snd a) (snd b).
+Definition notin (x : nat) (l : list nat) : bool := negb (memn x l).
+Definition merge_preb (h : heap) (i c2 : nat) : bool :=
+  let kids := n_children (nd h c2) in
+  let origs := n_chans (nd h i) in
+  let news := n_chans (nd h c2) in
+  let KS := kidchans h c2 in
+  negb (Nat.eqb i c2) && notin c2 kids && notin i kids &&
+  forallb (fun k => negb (Nat.eqb k i) && negb (Nat.eqb k c2) && notin k kids) (n_children (nd h i)) &&
+  forallb (fun k => match n_parent (nd h k) with Some p => Nat.eqb p c2 | None => false end) kids &&
+  forallb (fun a => forallb (fun b => memn b KS) (c_conns (ch h a))) KS &&
+  forallb (fun o => notin o KS && notin o news) origs &&
+  forallb (fun n => notin n KS) news &&
+  forallb (fun o => forallb (fun x => notin x KS && notin x news && notin x origs) (c_conns (ch h o))) origs &&
+  forallb (fun o => forallb (fun x => negb (memn o (c_conns (ch h x))) || memn x (c_conns (ch h o)))
+                            (map fst (h_chans h))) origs &&
+  forallb (fun o => match find_chan h c2 (c_panel (ch h o)) (c_label (ch h o)) with Some _ => true | None => false end) origs &&
+  nodupb key_eqb (map (ckey h) origs).
+
 (* ------------------------------------------------------------------ running (big step) *)
 Inductive outcome := ROk | RFail | RRefused | RSubmitErr.
 
@@ -625,6 +649,35 @@ Section Cycle.
     end.
 
   Definition run_ops (h : heap) (ops : list op) : cst := fold_left step ops (mkC h [] []).
+
+  (* does the state in which a job's result is merged meet the hypotheses of the merge theorem? *)
+  Definition job_pre (h : heap) (j : job) : bool :=
+    match j with
+    | JSame _ => true
+    | JPick i sd =>
+        let (h1, c1) := restore h sd in
+        let (h2, r) := body mode RFUEL h1 c1 in
+        match r with
+        | ROk =>
+            if is_comp (n_kind (nd h2 i)) then
+              match dump DFUEL h2 c1 with
+              | Some sd2 => let (h3, c2) := restore h2 sd2 in merge_preb (set_flags h3 i false false) i c2
+              | None => true
+              end
+            else true
+        | _ => true
+        end
+    end.
+
+  Fixpoint pre_trace (s : cst) (ops : list op) : list obs :=
+    match ops with
+    | [] => []
+    | o :: r =>
+        (match o, c_jobs s with
+         | OComplete, j :: _ => [ob (job_pre (c_heap s) j)]
+         | _, _ => []
+         end) ++ pre_trace (step s o) r
+    end.
 End Cycle.
 
 (* ------------------------------------------------------------------ rendering (the harness renders the real
@@ -751,4 +804,4 @@ Definition flow_obs (mode : mmode) (h : heap) (root : nat) (probe : bool) : obs 
 
 Definition cycle_obs (mode : mmode) (h : heap) (root X : nat) (ops : list op) : obs :=
   let s := run_ops mode X h ops in
-  OL [render (c_heap s) root; OL (c_log s)].
+  OL [render (c_heap s) root; OL (c_log s); OL (pre_trace mode X (mkC h [] []) ops)].
